@@ -194,15 +194,16 @@ func (dec *tomlDecoder) decodeNode(tomlNode *toml.Node) (*CandidateNode, error) 
 
 }
 
-func (dec *tomlDecoder) Decode() (*CandidateNode, error) {
+func (dec *tomlDecoder) Decode() (result *CandidateNode, deferredError error) {
 	if dec.finished {
 		return nil, io.EOF
 	}
 	//
-	// toml library likes to panic
-	var deferredError error
+	// toml library likes to panic: report that as the error of this call (a recovered panic must set the
+	// named results, otherwise the caller gets neither a document nor an error)
 	defer func() { //catch or finally
 		if r := recover(); r != nil {
+			result = nil
 			var ok bool
 			deferredError, ok = r.(error)
 			if !ok {
@@ -242,7 +243,7 @@ func (dec *tomlDecoder) Decode() (*CandidateNode, error) {
 		return nil, io.EOF
 	}
 
-	return dec.rootMap, deferredError
+	return dec.rootMap, nil
 
 }
 
